@@ -48,16 +48,23 @@ class Ledger(object):
     def probe(self, name, n=1):
         self.probes[name] = self.probes.get(name, 0) + n
 
-    def violate(self, prop, rule, key, msg, seq=None):
+    def violate(self, prop, rule, key, msg, seq=None, despite=()):
+        """despite: taint reasons under which this (direct, attribution-free)
+        observation is still reported."""
         if self.props is not None and prop not in self.props:
             return
         v = Violation(prop, rule, key, msg, self.w.seq if seq is None else seq)
-        if prop in self.tainted:
+        if prop in self.tainted and not (despite and self.taint_reasons <= set(despite)):
             return
         if v.sig in self.seen_sigs:
             return
         self.seen_sigs.add(v.sig)
         self.violations.append(v)
+
+    taint_reasons = frozenset()
+
+    def taint_why(self, why):
+        self.taint_reasons = frozenset(self.taint_reasons | {why})
 
     def taint(self, *props):
         """After this dispatch the ledger no longer describes the client reliably
@@ -190,11 +197,20 @@ class Ledger(object):
             elif k == "I":
                 c = self._conn(e[3])
                 d.desync = e[5]
+                pend_frames = []
                 for raw in e[4]:
                     ok, res = rc.judge_b2c(raw, c.version)
                     fr = InFrame(raw, ok, res if ok else None, None if ok else res)
                     d.frames.append(fr)
-                    d.order.append(("IN", fr))
+                    pend_frames.append(fr)
+                d._pend_frames = pend_frames
+                d._in_at = len(d.order)
+                d._markers = 0
+            elif k == "P":
+                pf = getattr(d, "_pend_frames", None)
+                d._markers = getattr(d, "_markers", 0) + 1
+                if pf:
+                    d.order.append(("IN", pf.pop(0)))
             elif k == "A":
                 req = self._new_req(d, e[4], e[3], nested=True)
                 d.order.append(("API", req))
@@ -210,6 +226,7 @@ class Ledger(object):
                         rq.exc_vt = e[5][1]
                     elif e[4] == "deferred":
                         rq.msgId = e[5]
+                        rq.ret_state = e[7] if len(e) > 7 else "pending"
                 d.order.append(("RET", rq))
                 if stack and stack[-1] is rq:
                     stack.pop()
@@ -222,6 +239,18 @@ class Ledger(object):
                 d.order.append(("J", e[4]))
             elif k == "N":
                 continue
+        pf = getattr(d, "_pend_frames", None)
+        if pf:
+            if getattr(d, "_markers", 0) == 0:
+                # no packet markers (the probe is not available): all frames first
+                d.coarse = True
+                at = d._in_at
+                d.order[at:at] = [("IN", fr) for fr in pf]
+            else:
+                # the client stopped before these packets (exception, or it framed differently)
+                d.unprocessed = list(pf)
+                for fr in pf:
+                    d.frames.remove(fr)
         return d
 
     def _out_version(self, c, raw, stack):
@@ -340,8 +369,10 @@ class Ledger(object):
         d.retx = []
         d.stale_tx = []
         d.aborted = False
+        d.closed_in = False      # some transport close call was made in this dispatch
         d.lost_conn = None
         d.connack = None
+        d.connacks = []
         d.frame_fx = []
         if w.stalled and not self.stalled:
             self.stalled = True
@@ -401,6 +432,7 @@ class Ledger(object):
             elif k == "X":
                 cc = self._conn(it[1])
                 what = it[2]
+                d.closed_in = True
                 if what == "abort":
                     d.aborted = True
                     cc.aborts.append((d.seq, d.t, d.kind, d.fired["kind"] if d.fired else None))
@@ -465,8 +497,12 @@ class Ledger(object):
         rq.conn_version = c.version
         apispec.classify(rq, c)
         s = self.session(c.addr)
-        same_disp_err = any((f[0] == d.seq and not f[1]) for f in rq.fires)
-        rq.accepted = (rq.how == "deferred") and not same_disp_err
+        # refused = the Deferred came back already failed (a request can also be accepted
+        # and then failed later in the same dispatch, e.g. by a second packet of the chunk)
+        rq.accepted = (rq.how == "deferred") and getattr(rq, "ret_state", "pending") != "failed"
+        rq.refusal = None
+        if rq.how == "deferred" and getattr(rq, "ret_state", None) == "failed" and rq.fires and not rq.fires[0][1]:
+            rq.refusal = rq.fires[0][2]      # (exception name, loss conn, is ValueError/TypeError)
         if rq.kind == "other":
             if rq.how == "none" and rq.args is not None and getattr(rq, "sig_ok", False):
                 a = rq.args
@@ -550,6 +586,7 @@ class Ledger(object):
                          "identifier %d given to %s rid=%d while %s rid=%d (%s, addr %s) is unfinished"
                          % (mid, rq.kind, rq.rid, old.kind, old.rid, old.stage(), old.addr))
             # attribution by id is ambiguous from here on
+            self.taint_why("collision")
             self.taint("C05", "C07", "C08", "C09", "C10", "C11", "C12", "C13", "C02", "C19")
         self.ids[mid] = rq
         s.by_id[(kc, mid)] = rq
@@ -699,9 +736,18 @@ class Ledger(object):
         s = self.session(c.addr)
         fx = {"fr": fr, "tag": None, "req": None, "ex": None, "state": c.state}
         d.frame_fx.append(fx)
+        if c.closing == "lose" and c.state != "lost":
+            # disconnect() was called earlier in this very chunk: the rest of the chunk is
+            # read by a protocol that is closing; nothing of it may have an effect (C14)
+            fx["tag"] = "foreign"
+            fx["state"] = "closing"
+            return
+        if c.closing == "abort":
+            fx["after_abort"] = True     # effects of later packets are not judged (either way is fine)
         if not fr.ok:
             fx["tag"] = "malformed"
             c.had_malformed = True
+            self.taint_why("malformed")
             # how the client read a malformed packet cannot be known from outside:
             # from here on only the properties that do not depend on the protocol
             # state keep being judged in this run
@@ -731,6 +777,7 @@ class Ledger(object):
                     fx["tag"] = "connack-refused"
                     c.state = "refused"
                 d.connack = fx
+                d.connacks.append(fx)
             else:
                 fx["tag"] = "foreign"
             return
@@ -760,6 +807,7 @@ class Ledger(object):
                 # every property's quantifier (I7); the ledger may diverge from here
                 fx["tag"] = "ack-misfit"
                 self.probe("ack_misfit")
+                self.taint_why("misfit")
                 self.taint("C05", "C08", "C09", "C10", "C11", "C12", "C13", "C16", "C19")
                 return
             if rq is not None and rq.tx and rq.open:
